@@ -169,9 +169,31 @@ type TTagged struct {
 	Ji *int8  `sql:",json"`
 }
 
+type hidden struct{ X int }
+
+// TGaps: fields that are not columns - an unexported embedded struct, unexported fields, `sql:"-"` fields -
+// before and between the columns, so that a column's position among the columns differs from its field index.
+type TGaps struct {
+	hidden
+	note    string
+	Display string `sql:"-"`
+	Id      int64  `sql:",primary"`
+	Name    string
+	skip2   *int
+	Age     *int32
+	Gone    float64 `sql:"-"`
+	Flag    bool
+	cache   map[string]int
+	B       []byte
+	Score   *int64
+	Tail    string `sql:"-"`
+}
+
 type TMixed struct {
-	K1      int64  `sql:"key_one,primary"`
-	K2      string `sql:"key_two,primary"`
+	before  bool
+	Ignored *string `sql:"-"`
+	K1      int64   `sql:"key_one,primary"`
+	K2      string  `sql:"key_two,primary"`
 	U       uint64
 	Up      *uint32
 	F       *float64
@@ -231,7 +253,7 @@ type tableInfo struct {
 var catalogue = []tableInfo{
 	{"ints", TInts{}, nil}, {"uints", TUints{}, nil}, {"floats", TFloats{}, nil}, {"text", TText{}, nil},
 	{"times", TTime{}, nil}, {"implicit", TImplicit{}, nil}, {"tagged", TTagged{}, nil}, {"mixed", TMixed{}, nil},
-	{"self", TSelf{}, nil}, {"self2", TSelf2{}, nil}, {"jsonwide", TJsonWide{}, nil}, {"jsonodd", TJsonOdd{}, nil},
+	{"gaps", TGaps{}, nil}, {"self", TSelf{}, nil}, {"self2", TSelf2{}, nil}, {"jsonwide", TJsonWide{}, nil}, {"jsonodd", TJsonOdd{}, nil},
 }
 
 // TSelf2 doubles the weight of the self-scanning types in the catalogue (plain copies of the columns).
